@@ -875,6 +875,198 @@ Proof.
   - destruct HL as (acc' & r' & v' & HL). rew_loop HL. rewrite (values_for_field_err_code _ _ _ _ Ev). reflexivity.
 Qed.
 
+(* ------------------------------------------------------------------ update_policies *)
+Lemma index_of_set_nth_other (o1 o2 n : rule) : forall l i,
+  index_of rule_eqb o1 l = Some i -> o2 <> o1 -> o2 <> n ->
+  index_of rule_eqb o2 (set_nth i n l) = index_of rule_eqb o2 l.
+Proof.
+  induction l as [|x t IH]; intros i H H1 H2; simpl in H; [discriminate|].
+  destruct (rule_eqb o1 x) eqn:E.
+  - inversion H; subst. apply rule_eqb_eq in E. subst x. simpl.
+    apply rule_eqb_neq in H1, H2. rewrite H1, H2. reflexivity.
+  - destruct (index_of rule_eqb o1 t) as [j|] eqn:Ej; [|discriminate]. inversion H; subst. simpl.
+    destruct (rule_eqb o2 x); [reflexivity|]. rewrite (IH j eq_refl H1 H2). reflexivity.
+Qed.
+
+Fixpoint write_seq (l : store) (olds news : list rule) : option store :=
+  match olds, news with
+  | o :: os, n :: ns => match index_of rule_eqb o l with
+                        | Some i => write_seq (set_nth i n l) os ns
+                        | None => None
+                        end
+  | _, _ => Some l
+  end.
+
+Lemma indices_of_set_nth (o n : rule) i : forall os l,
+  index_of rule_eqb o l = Some i -> (forall x, In x os -> x <> o /\ x <> n) ->
+  indices_of (set_nth i n l) os = indices_of l os.
+Proof.
+  induction os as [|x os IH]; intros l Hi H; simpl; [reflexivity|].
+  destruct (H x (or_introl eq_refl)) as [H1 H2].
+  rewrite (index_of_set_nth_other o x n l i Hi H1 H2), IH; [reflexivity | exact Hi | intros y Hy; apply H; right; exact Hy].
+Qed.
+
+Lemma write_seq_spec : forall olds news l idxs,
+  indices_of l olds = Some idxs -> nodupb rule_eqb olds = true ->
+  (forall o n, In o olds -> In n news -> o <> n) ->
+  write_seq l olds news = Some (write_all l idxs news).
+Proof.
+  induction olds as [|o os IH]; intros news l idxs Hi Hn Hd; simpl in *.
+  - inversion Hi; subst. destruct news; reflexivity.
+  - destruct (index_of rule_eqb o l) as [i|] eqn:Ei; [|discriminate].
+    destruct (indices_of l os) as [ri|] eqn:Er; [|discriminate]. inversion Hi; subst.
+    destruct news as [|n ns]; [reflexivity|]. simpl.
+    apply andb_true_iff in Hn. destruct Hn as [Hno Hns]. apply negb_true_iff in Hno.
+    apply IH; [|exact Hns|].
+    + rewrite (indices_of_set_nth o n i os l Ei); [exact Er|].
+      intros x Hx. split.
+      * intros ->. apply mem_false_notin in Hno. contradiction.
+      * apply Hd; [right; exact Hx | left; reflexivity].
+    + intros o' n' Ho' Hn'. apply Hd; right; assumption.
+Qed.
+
+Lemma zip_map_PL (olds news : list rule) : zip (map PL olds) (map PL news) = map (fun '(o, n) => (PL o, PL n)) (zip olds news).
+Proof.
+  revert news. induction olds as [|o os IH]; intros [|n ns]; simpl; try reflexivity. rewrite IH. reflexivity.
+Qed.
+
+Lemma zip_write_loop (F : pv * pv -> pst -> out) (mk : list rule -> pv -> pv -> pst) :
+  (forall o n p o0 n0, F (PL o, PL n) (mk p o0 n0) =
+     match index_of rule_eqb o p with
+     | Some i => ONext (mk (set_nth i n p) (PL o) (PL n))
+     | None => OErr EValue (mk p (PL o) (PL n))
+     end) ->
+  forall olds news p p' o0 n0, write_seq p olds news = Some p' ->
+  exists o' n', for_each F (zip (map PL olds) (map PL news)) (mk p o0 n0) = ONext (mk p' o' n').
+Proof.
+  intro HF. induction olds as [|o os IH]; intros news p p' o0 n0 H; simpl in H.
+  - inversion H; subst. exists o0, n0. reflexivity.
+  - destruct news as [|n ns]; simpl in H |- *.
+    + inversion H; subst. exists o0, n0. reflexivity.
+    + rewrite HF. destruct (index_of rule_eqb o p) as [i|]; [|discriminate]. apply IH. exact H.
+Qed.
+
+Lemma zip_prio_loop (F : pv * pv -> pst -> out) (mk : pv -> pv -> pst) (k : nat) :
+  (forall o n o0 n0, F (PL o, PL n) (mk o0 n0) =
+     match nth_error o k with
+     | None => OErr EIndex (mk (PL o) (PL n))
+     | Some a => match nth_error n k with
+                 | None => OErr EIndex (mk (PL o) (PL n))
+                 | Some b => if a =? b then ONext (mk (PL o) (PL n)) else OErr EPriorityMismatch (mk (PL o) (PL n))
+                 end
+     end) ->
+  forall olds news o0 n0,
+  exists o' n', for_each F (zip (map PL olds) (map PL news)) (mk o0 n0) =
+    match prio_check k olds news with Ok _ => ONext (mk o' n') | Err c => OErr c (mk o' n') end.
+Proof.
+  intro HF. induction olds as [|o os IH]; intros news o0 n0; simpl.
+  - exists o0, n0. reflexivity.
+  - destruct news as [|n ns]; simpl; [exists o0, n0; reflexivity|].
+    rewrite HF. unfold field.
+    destruct (nth_error o k) as [a|]; [|eexists _, _; reflexivity].
+    destruct (nth_error n k) as [b|]; [|eexists _, _; reflexivity].
+    destruct (a =? b); [apply IH | eexists _, _; reflexivity].
+Qed.
+
+Lemma indices_of_some l : forall olds, forallb (has_policy l) olds = true <-> exists idxs, indices_of l olds = Some idxs.
+Proof.
+  induction olds as [|o os IH]; simpl.
+  - split; [intros _; eexists; reflexivity | reflexivity].
+  - rewrite andb_true_iff, IH. unfold has_policy. split.
+    + intros [Ho [idxs Hi]]. destruct (index_of rule_eqb o l) as [i|] eqn:E; [|exfalso; eapply mem_index_of; eassumption].
+      rewrite Hi. eexists; reflexivity.
+    + intros [idxs H]. destruct (index_of rule_eqb o l) as [i|] eqn:E; [|discriminate].
+      destruct (indices_of l os) as [ri|]; [|discriminate]. split; [|eexists; reflexivity].
+      destruct (mem rule_eqb o l) eqn:Em; [reflexivity|]. rewrite (index_of_mem _ _ Em) in E. discriminate.
+Qed.
+
+Lemma of_nat_eqb a b : (Z.of_nat a =? Z.of_nat b)%Z = Nat.eqb a b.
+Proof.
+  destruct (Nat.eqb_spec a b) as [->|H]; [apply Z.eqb_refl|]. apply Z.eqb_neq. lia.
+Qed.
+
+Ltac step_to_zip :=
+  repeat (lazymatch goal with |- context [for_each _ (zip _ _) _] => fail | _ => step end).
+
+Ltac fin_w :=
+  norm_hyps;
+  repeat match goal with
+  | H1 : ?x = Some ?a, H2 : ?x = Some ?b |- _ => rewrite H1 in H2; inversion H2; subst; clear H2
+  | H1 : ?x = Some _, H2 : ?x = None |- _ => rewrite H1 in H2; discriminate H2
+  end;
+  cbv [set_loc set_pol upd key_eqb Pos.eqb]; cbn [pol loc];
+  try reflexivity; try contra.
+
+Lemma tie_update_policies sp pi tk l olds news :
+  run policy_gen (mkE sp pi tk) FUEL m_update_policies l [PLL olds; PLL news] =
+  res_pair (update_policies tk l olds news) l.
+Proof.
+  match goal with |- _ = ?rhs => set (R := rhs) end. start. sym'.
+  2: { (* lengths differ *)
+    subst R. unfold update_policies. rewrite of_nat_eqb in *.
+    match goal with H : Nat.eqb _ _ = false |- _ => rewrite H end. reflexivity. }
+  match goal with H : (Z.of_nat _ =? _)%Z = true |- _ => rewrite of_nat_eqb in H; rename H into Hlen end.
+  (* loop 1: every old rule present, none repeated *)
+  match goal with |- context [for_each ?F (enum_from 0 (map PL olds)) _] =>
+    destruct (check_loop F (fun i r => {| pol := l; loc := [(14, PLL olds); (15, PLL news); (4, i); (10, r); (11, PUnbound); (13, PUnbound)] |})
+                (fun r => negb (has_policy l r)) olds) with (suf := olds) (pre := @nil rule) (i0 := PUnbound) (r0 := PUnbound)
+      as (i1 & o1 & Hloop1) end.
+  { intros k r i0 r0. cbv beta iota. sym'. all: fin_pt. }
+  { reflexivity. }
+  cbn [length] in Hloop1. rew_loop Hloop1. clear Hloop1. rewrite nodup_pre_nil, forallb_negb_negb.
+  destruct (forallb (has_policy l) olds) eqn:Hpres; cbn [andb]; cbv beta iota.
+  2: { subst R. unfold update_policies. rewrite Hlen. cbn [negb].
+       destruct (nodupb rule_eqb olds); cbn [negb]; [|reflexivity].
+       destruct (indices_of l olds) as [idxs|] eqn:Ei; [|reflexivity].
+       assert (forallb (has_policy l) olds = true) by (apply indices_of_some; eexists; exact Ei). congruence. }
+  destruct (nodupb rule_eqb olds) eqn:Hnd; cbv beta iota.
+  2: { subst R. unfold update_policies. rewrite Hlen, Hnd. reflexivity. }
+  destruct (proj1 (indices_of_some l olds) Hpres) as [idxs Hidx].
+  step. step.
+  (* loop 2: no new rule present, none repeated *)
+  match goal with |- context [for_each ?F (enum_from 0 (map PL news)) _] =>
+    destruct (check_loop F (fun i r => {| pol := l; loc := [(14, PLL olds); (15, PLL news); (4, i); (10, o1); (11, r); (13, PUnbound)] |})
+                (fun r => has_policy l r) news) with (suf := news) (pre := @nil rule) (i0 := i1) (r0 := PUnbound)
+      as (i2 & n2 & Hloop2) end.
+  { intros k r i0 r0. cbv beta iota. sym'. all: fin_pt. }
+  { reflexivity. }
+  cbn [length] in Hloop2. rew_loop Hloop2. clear Hloop2. rewrite <- (batch_addable_pre l news [] []) by reflexivity.
+  destruct (batch_addable l [] news) eqn:Hadd; cbv beta iota.
+  2: { subst R. unfold update_policies. rewrite Hlen, Hnd, Hidx, Hadd. reflexivity. }
+  assert (Hws : write_seq l olds news = Some (write_all l idxs news)).
+  { apply write_seq_spec; [exact Hidx | exact Hnd |]. intros o n Ho Hn ->.
+    rewrite forallb_forall in Hpres. specialize (Hpres n Ho).
+    rewrite (batch_addable_pre l news [] []) in Hadd by reflexivity. apply andb_true_iff in Hadd.
+    destruct Hadd as [Ha _]. rewrite forallb_forall in Ha. specialize (Ha n Hn). rewrite Hpres in Ha. discriminate. }
+  subst R. unfold update_policies. rewrite Hlen, Hnd, Hidx, Hadd. cbn [negb].
+  destruct tk as [k|].
+  - (* a priority column: the pairs are compared first *)
+    step_to_zip.
+    match goal with |- context [for_each ?F (zip (map PL olds) (map PL news)) _] =>
+      destruct (zip_prio_loop F
+        (fun o n => {| pol := l; loc := [(14, PLL olds); (15, PLL news); (4, i2); (10, o); (11, n); (13, PI (Z.of_nat k))] |}) k)
+        with (olds := olds) (news := news) (o0 := o1) (n0 := n2) as (o3 & n3 & Hloop3) end.
+    { intros o n o0 n0. cbv beta iota. sym'. all: fin_v. }
+    rew_loop Hloop3. clear Hloop3.
+    destruct (prio_check k olds news) as [u|c]; cbv beta iota; [|sym'; reflexivity].
+    step_to_zip.
+    match goal with |- context [for_each ?F (zip (map PL olds) (map PL news)) _] =>
+      destruct (zip_write_loop F
+        (fun p o n => {| pol := p; loc := [(14, PLL olds); (15, PLL news); (4, i2); (10, o); (11, n); (13, PI (Z.of_nat k))] |}))
+        with (olds := olds) (news := news) (p := l) (p' := write_all l idxs news) (o0 := o3) (n0 := n3) as (o4 & n4 & Hloop4);
+        [| exact Hws |] end.
+    { intros o n p o0 n0. cbv beta iota. sym'. all: fin_w. }
+    rew_loop Hloop4. cbv beta iota. sym'. reflexivity.
+  - step_to_zip.
+    match goal with |- context [for_each ?F (zip (map PL olds) (map PL news)) _] =>
+      destruct (zip_write_loop F
+        (fun p o n => {| pol := p; loc := [(14, PLL olds); (15, PLL news); (4, i2); (10, o); (11, n); (13, PUnbound)] |}))
+        with (olds := olds) (news := news) (p := l) (p' := write_all l idxs news) (o0 := o1) (n0 := n2) as (o4 & n4 & Hloop4);
+        [| exact Hws |] end.
+    { intros o n p o0 n0. cbv beta iota. sym'. all: fin_w. }
+    rew_loop Hloop4. cbv beta iota. sym'. reflexivity.
+Qed.
+
 (* ------------------------------------------------------------------ C06, stated of the regenerated source *)
 Notation src := (run policy_gen).
 
@@ -953,6 +1145,31 @@ Proof.
   intro H. rewrite tie_remove_filtered_policy. unfold remove_filtered. rewrite H.
   rewrite (split_filtered_err_code _ _ _ _ H). reflexivity.
 Qed.
+
+Lemma update_policies_false_unchanged tk l olds news l' :
+  update_policies tk l olds news = Ok (l', false) -> l' = l.
+Proof.
+  unfold update_policies.
+  destruct (negb (Nat.eqb (length olds) (length news))); [intro H; inversion H; reflexivity|].
+  destruct (negb (nodupb rule_eqb olds)); [intro H; inversion H; reflexivity|].
+  destruct (indices_of l olds); [|intro H; inversion H; reflexivity].
+  destruct (negb (batch_addable l [] news)); [intro H; inversion H; reflexivity|].
+  destruct tk; [destruct (prio_check n olds news)|]; intro H; inversion H.
+Qed.
+
+(* a batch update that does not report success - it reports failure or raises - leaves the rule list untouched *)
+Theorem src_batch_update_all_or_nothing sp pi tk l olds news v l' :
+  src (mkE sp pi tk) FUEL m_update_policies l [PLL olds; PLL news] = (v, l') -> v <> Ok (PB true) -> l' = l.
+Proof.
+  rewrite tie_update_policies. unfold res_pair.
+  destruct (update_policies tk l olds news) as [[l2 b]|c] eqn:E; intros H Hv; inversion H; subst; [|reflexivity].
+  destruct b; [contradiction|]. eapply update_policies_false_unchanged. exact E.
+Qed.
+
+Theorem src_filtered_read sp pi tk l fi vs :
+  src (mkE sp pi tk) FUEL m_get_filtered_policy l [PI (Z.of_nat fi); PL vs] =
+  (match get_filtered l fi vs with Ok out => Ok (PLL out) | Err c => Err c end, l).
+Proof. apply tie_get_filtered_policy. Qed.
 
 Example src_example :
   src (mkE true (-1)%Z None) FUEL m_add_policies [[1000; 1001; 1002]] [PLL [[1003; 1001; 1002]; [1000; 1004; 1002]]] =
